@@ -250,6 +250,14 @@ fn build(tier: Tier) -> Vec<Scenario> {
             }
         }
     }
+    // quick tier: a diamond and a join template on two replicas one deviation deeper (loops cost
+    // 100+ CPU seconds each at d <= 2: thorough tier only)
+    if tier == Tier::Quick {
+        deepen(&mut out, &|n| {
+            n.ends_with("/par[0, 1, 0, 1]/local2-fixed1-cap0")
+                && ["C01/Dup.Map.Swap.Shuffle.Merge/", "C01/Dup.Map.Join(0, 0, 0)/"].iter().any(|p| n.starts_with(p))
+        });
+    }
     // remote layouts, heterogeneous hosts
     let remote_progs: Vec<Program> = vec![
         vec![Map],
